@@ -1370,3 +1370,29 @@ def _mksln(prop, name, what, misc, tiers):
 
 c03_stop_lost_headers_no_utr_1 = _mksln('C03', 'c03_stop_lost_headers_no_utr_1', 'headers', 1, ('quick', 'thorough'))
 c01_stop_lost_traversal_no_utr_1 = _mksln('C01', 'c01_stop_lost_traversal_no_utr_1', 'check', 1, ('quick', 'thorough'))
+
+
+# --------------------------------------------------------------------------
+# C03: two frameshifting indels on one transcript; a variant that removes a stop codon of the SHIFTED frame
+# --------------------------------------------------------------------------
+# +2 insertion and -1 deletion, 20 nt apart: everything after the second one depends on both
+CASE_FS2 = _Lazy(lambda: _Case('MASTEDLVKAADEGLVSTKGGHLRVVLIDEFYAK', [(40, 'G', 'GAG'), (62, 'TC', 'T')]))
+c03_headers_two_frameshifts_1 = _mkh('c03_headers_two_frameshifts_1', CASE_FS2, 'a +2 insertion and a -1 deletion 20 nt apart', 1,
+                                     ('quick', 'thorough'))
+# a -2 deletion opens a shifted frame that stops after 10 residues; an SNV 5 nt further removes that stop codon
+CASE_SHIFTED_STOP = _Lazy(lambda: _Case('MASTEDLVKAADEGLVSTKGGHLRVVLIDEFYAK', [(29, 'TGC', 'T'), (34, 'A', 'T')]))
+
+
+def _known_shifted_stop(lo: int, hi: int) -> int:
+    """
+    pre: 1 <= lo
+    post: _ >= 0
+    """
+    return _headers(CASE_SHIFTED_STOP, 1, lo, hi)
+
+
+_known_shifted_stop.__name__ = _known_shifted_stop.__qualname__ = 'c03_headers_shifted_frame_stop_lost'
+c03_headers_shifted_frame_stop_lost = cond(
+    'C03', bounds='KNOWN FINDING CLASS: ONE concrete transcript with a frameshifting deletion and, in the shifted frame, an SNV that '
+    'removes the stop codon ending that frame; miscleavage = 1, min_length and max_length UNBOUNDED symbolic integers',
+    encodes=ENC, stubs=STUBS, codes=CODES_H, timeout=900, expect='refuted-known')(_known_shifted_stop)
